@@ -10,6 +10,7 @@
 -/
 import MocVerif.Lemmas.Query
 import MocVerif.Lemmas.Measure
+import MocVerif.Lemmas.CellView
 
 namespace Moc.C03
 
@@ -162,5 +163,36 @@ theorem first_last_index (l : List Rng) (hc : Canon l) :
       cases h : (r :: t).getLast? with
       | none => simp at h
       | some v => simp
+
+theorem dvd_or (k a b : Nat) : 2 ^ k ∣ (a ||| b) ↔ 2 ^ k ∣ a ∧ 2 ^ k ∣ b := by
+  simp only [Nat.dvd_iff_mod_eq_zero, Nat.or_mod_two_pow, Nat.or_eq_zero_iff]
+
+theorem dvd_orBounds (k : Nat) : ∀ (l : List Rng), 2 ^ k ∣ orBounds l ↔ Aligned (2 ^ k) l := by
+  intro l
+  induction l with
+  | nil => simp [orBounds, Aligned]
+  | cons r t ih =>
+    simp only [orBounds, dvd_or, ih, Aligned, List.mem_cons, forall_eq_or_imp, and_assoc]
+
+/-- **`compute_min_depth` is the smallest depth at which the ranges are a union of whole cells**: for every legal
+    depth `d`, all the bounds are aligned on the cells of depth `d` if and only if `d ≥ compute_min_depth` — computed,
+    as the code does, from the trailing zeros of the OR of all the bounds (0 for the empty MOC). -/
+theorem computeMinDepth_spec (q : Qty) (w : Nat) (l : List Rng) (hdim : 0 < q.dim) (hw : q.dim * q.maxDepth w ≤ w)
+    (d : Nat) (hd : d ≤ q.maxDepth w) :
+    Aligned (2 ^ q.shiftFromMax w d) l ↔ computeMinDepth q w l ≤ d := by
+  rw [← dvd_orBounds]
+  have hk : q.shiftFromMax w d ≤ w := by
+    unfold Qty.shiftFromMax
+    have : q.dim * (q.maxDepth w - d) ≤ q.dim * q.maxDepth w := Nat.mul_le_mul_left _ (by omega)
+    omega
+  have h1 : 2 ^ q.shiftFromMax w d ∣ orBounds l ↔ q.shiftFromMax w d ≤ tz w (orBounds l) :=
+    ⟨fun h => le_tz_of_dvd w _ _ h hk, fun h => Nat.dvd_trans (Nat.pow_dvd_pow 2 h) (tz_dvd w _)⟩
+  rw [h1]
+  unfold computeMinDepth Qty.shiftFromMax
+  have h2 : q.dim * (q.maxDepth w - d) ≤ tz w (orBounds l) ↔ q.maxDepth w - d ≤ tz w (orBounds l) / q.dim := by
+    rw [Nat.le_div_iff_mul_le hdim, Nat.mul_comm]
+  rw [h2]
+  generalize tz w (orBounds l) / q.dim = t
+  omega
 
 end Moc.C03
